@@ -1,45 +1,24 @@
-"""Per-property configuration of ./check."""
+"""Per-property configuration of ./check: one file per property under checks/props/ defining
+PROP (check configuration), META (MANIFEST texts) and ENGINES (MANIFEST engines entries)."""
+import os, sys, importlib.util
+
+_DIR = os.path.join(os.path.dirname(os.path.abspath(__file__)), "props")
+sys.path.insert(0, _DIR)
 
 COMPARE = {}
+PROPS = {}
+META = {}
+ENGINES = {}
 
-PROPS = {
-    "C17": dict(
-        lean_modules=["DefraModel.Props.C17"],
-        props_modules=["DefraModel.Props.C17"],
-        engines=[dict(name="enc", drv="enc")],
-        rule="edge pools (all pairs of varint-width boundaries +-2, float specials +-1ulp, 00/ff-rich strings) exhaustively, then PRNG-generated values/pairs/composite keys/malformed decoder inputs; a case is non-trivial when it is a value round-trip, a comparable pair, a uvarint round-trip or a composite key; distinct = distinct op lines",
-        assumptions=[
-            "IEEE-754 order on non-NaN floats equals sign-magnitude order of the bit patterns (definition of the model's value order; compared with Go's < on every generated pair)",
-            "the hand-written Lean encoders are the Go encoders (checked byte-for-byte on every generated value each run)",
-        ],
-        trusted_base=["Go harness harness/enc (generator, oracle), Driver/Enc.lean (parsing/printing)"],
-    ),
-}
-
-_CRDT_RULE = ("10 directed histories (diamond, heads at different heights, null/value ties in both directions, tie on a deleted "
-              "document, shared register block, delete concurrent with update + redelivery of ancestors, branchable doc/collection "
-              "commit orders) then PRNG-generated histories over 2-4 replicas: creates (incl. the same document on two nodes), "
-              "register writes from small value pools (ties frequent), increments/decrements, deletes, deliveries of arbitrary "
-              "earlier commits in arbitrary order incl. redelivery, full syncs; a case is non-trivial when it reached a quiescent "
-              "point with all replicas compared; distinct = distinct (case, commit count)")
-_CRDT_ASSUME = [
-    "the Lean mirror of updateHeads/setValue/incrementValue/Merge/isMerged/loadComposites/processBlock is the Go code (compared after every local write and every delivery, incl. head sets)",
-    "mirror state = canon(merged set) is checked by execution at every step (SPEC-DIFFERS marker), not proved: exactness of isMerged/loadComposites is not yet a theorem",
-    "every block a delivery refers to is available (the harness copies the block store before each delivery), i.e. `known` is always true",
-    "cid is a function of content (SHA-256 collision freedom); labels are assigned per cid",
-]
-
-def _crdt(props_module, tags, extra_rule=""):
-    return dict(
-        lean_modules=[props_module],
-        props_modules=[props_module],
-        engines=[dict(name="crdt", drv="crdt")],
-        oracle_tags=tags,
-        rule=_CRDT_RULE + extra_rule,
-        assumptions=_CRDT_ASSUME,
-        trusted_base=["Go harness harness/crdt + harness/node + overlay hook internal/db/verif_hooks.go (synchronous executeMerge), Driver/Crdt.lean"],
-    )
-
-PROPS["C01"] = _crdt("DefraModel.Props.C01", ["replicas-differ", "heads-differ", "merge-error", "panic", "collection-id-differs"])
-PROPS["C02"] = _crdt("DefraModel.Props.C02", ["counter-sum", "register-not-latest", "deleted-status", "value-key-family", "panic", "event-on-failed-op"])
-PROPS["C04"] = _crdt("DefraModel.Props.C04", ["dag-content-address", "dag-missing-block", "dag-height", "head-height", "heads-not-maximal", "genesis-differs", "panic"])
+for _f in sorted(os.listdir(_DIR)):
+    if not _f.endswith(".py") or _f.startswith("_"):
+        continue
+    _pid = _f[:-3]
+    _spec = importlib.util.spec_from_file_location("prop_" + _pid, os.path.join(_DIR, _f))
+    _m = importlib.util.module_from_spec(_spec)
+    _spec.loader.exec_module(_m)
+    PROPS[_pid] = _m.PROP
+    META[_pid] = _m.META
+    for _e in getattr(_m, "ENGINES", []):
+        ENGINES[_e["name"]] = _e
+    COMPARE.update(getattr(_m, "COMPARE", {}))
